@@ -303,3 +303,38 @@ func init() {
 		Stubs:  stubErrors,
 	})
 }
+
+// bandCfgs enumerates (name index, repeater, dwell-time) configurations; quick: the 14 common names, thorough: + the 10 aliases.
+func bandCfgs(tier string) [][]int {
+	var out [][]int
+	nn := 14
+	if tier == "thorough" {
+		nn = 24
+	}
+	for n := 0; n < nn; n++ {
+		for rep := 0; rep <= 1; rep++ {
+			for dt := 0; dt <= 1; dt++ {
+				out = append(out, []int{n, rep, dt})
+			}
+		}
+	}
+	return out
+}
+
+func init() {
+	register(&PropSpec{
+		ID:   "C12",
+		Pkgs: []string{"band"},
+		Items: func(tier string, seed int64) []Item {
+			var it []Item
+			for _, c := range bandCfgs(tier) {
+				for _, f := range []string{"VerifC12_RX1DR", "VerifC12_RX1Chan", "VerifC12_PingSlot", "VerifC12_RX2", "VerifC12_NoPanic"} {
+					it = append(it, Item{PkgKey: "band", Func: f, Shape: c})
+				}
+			}
+			return it
+		},
+		Bounds: func(tier string) map[string]string { return map[string]string{} },
+		Stubs:  stubErrors,
+	})
+}
